@@ -247,7 +247,7 @@ func vfScript(sc int) []vfStep {
 // C02: safe mode. Every Batch that returns nil is durable at every later
 // directory-operation boundary and torn state, up to and including Close.
 //
-// vf:harness property=C02 cases=sc:0..3;order:0..1 cases.thorough=sc:0..5;order:0..2 sched=1 schedbudget=2 schedbudget.thorough=4 preempt=0 preempt.thorough=1 goinline=1 chanslack=8 deadlock=violation clock=zero maxpaths=200000 replay=model-only diff=off
+// vf:harness property=C02 cases=sc:0..3;order:0..1 cases.thorough=sc:0..5;order:0..2 sched=1 schedbudget=2 preempt=0 preempt.thorough=1 schedtotal=2 goinline=1 chanslack=8 deadlock=violation clock=zero maxpaths=200000 replay=model-only diff=off
 // vf:replace hash/crc32.Update vfChecksumUpdate
 // vf:replace io.CopyN vfCopyN
 // vf:replace (*github.com/RoaringBitmap/roaring.Bitmap).ReadFrom vfRoaringReadFrom
@@ -289,7 +289,7 @@ func VF_C02_AckedBatchIsDurable(sc int, order int) {
 // analysis worker and the three loops, a batch whose call has returned nil is in
 // every later crash image.
 //
-// vf:harness property=C02 cases=nw:2;order:0..1 cases.thorough=nw:2;order:0..2 sched=1 schedbudget=2 schedbudget.thorough=3 preempt=0 preempt.thorough=1 goinline=1 chanslack=8 deadlock=violation clock=zero maxpaths=400000 replay=model-only diff=off
+// vf:harness property=C02 cases=nw:2;order:0..1 cases.thorough=nw:2;order:0..2 sched=1 schedbudget=2 preempt=0 preempt.thorough=1 schedtotal=2 goinline=1 chanslack=8 deadlock=violation clock=zero maxpaths=400000 replay=model-only diff=off
 // vf:replace hash/crc32.Update vfChecksumUpdate
 // vf:replace io.CopyN vfCopyN
 // vf:replace (*github.com/RoaringBitmap/roaring.Bitmap).ReadFrom vfRoaringReadFrom
